@@ -350,7 +350,7 @@ func (w *World) panicSites() []panicSite {
 						}
 						// every search result that flows into the bound must have been tested
 						for _, src := range searchResultsIn(bound, 0, map[ssa.Value]bool{}) {
-							if !searchChecked(src, bound, x.Block(), 0) {
+							if !searchChecked(src, bound, x.Block(), 0) && !searchCheckedAlong(src, bound, x.Block(), 0) {
 								add(fn, "slice-bound", calleeName(src)+" result used as slice bound without a -1 test", x.Pos())
 								break
 							}
@@ -566,6 +566,50 @@ func searchChecked(src *ssa.Call, carrier ssa.Value, b *ssa.BasicBlock, depth in
 	return false
 }
 
+// searchCheckedAlong: the search result reaches v (used at the end of block b) only through
+// places where it has been tested - a value computed from it inside the guarded branch and
+// merged with a default afterwards (`end := len(s); if i := IndexByte(..); i != -1 { end = start+i }`).
+func searchCheckedAlong(src *ssa.Call, v ssa.Value, b *ssa.BasicBlock, depth int) bool {
+	if depth > 8 {
+		return false
+	}
+	if searchChecked(src, v, b, 0) {
+		return true
+	}
+	dependsOnSrc := func(x ssa.Value) bool {
+		for _, s := range searchResultsIn(x, 0, map[ssa.Value]bool{}) {
+			if s == src {
+				return true
+			}
+		}
+		return false
+	}
+	switch x := v.(type) {
+	case *ssa.Phi:
+		for i, e := range x.Edges {
+			if dependsOnSrc(e) && !searchCheckedAlong(src, e, x.Block().Preds[i], depth+1) {
+				return false
+			}
+		}
+		return true
+	case *ssa.Call:
+		return false
+	case ssa.Instruction:
+		ok := false
+		for _, op := range x.Operands(nil) {
+			if *op == nil || !dependsOnSrc(*op) {
+				continue
+			}
+			if !searchCheckedAlong(src, *op, x.Block(), depth+1) {
+				return false
+			}
+			ok = true
+		}
+		return ok
+	}
+	return false
+}
+
 func valueDesc(v ssa.Value) string {
 	a := sliceOf(v)
 	var parts []string
@@ -603,6 +647,14 @@ func indexBounded(x ssa.Value, k int64, b *ssa.BasicBlock) bool {
 			return true // Split always returns at least one element
 		}
 	}
+	// what the dominating branches say about len(x) - or about the length of what x is a
+	// same-length copy of (slices.Clone(y), append([]T{}, y...))
+	subjects := []ssa.Value{x}
+	if src := sameLengthSource(x); src != nil {
+		subjects = append(subjects, src)
+	}
+	minLen := int64(0)
+	excluded := map[int64]bool{}
 	for _, f := range dominatingFacts(b) {
 		cnd, pol := unwrapNot(f.Cond, f.Pol)
 		bo, ok := cnd.(*ssa.BinOp)
@@ -615,7 +667,11 @@ func indexBounded(x ssa.Value, k int64, b *ssa.BasicBlock) bool {
 				return false
 			}
 			if bi, ok := c.Call.Value.(*ssa.Builtin); ok && bi.Name() == "len" {
-				return sameValue(c.Call.Args[0], x) || equivLoad(c.Call.Args[0], x, 0)
+				for _, sj := range subjects {
+					if sameValue(c.Call.Args[0], sj) || equivLoad(c.Call.Args[0], sj, 0) {
+						return true
+					}
+				}
 			}
 			return false
 		}
@@ -624,20 +680,64 @@ func indexBounded(x ssa.Value, k int64, b *ssa.BasicBlock) bool {
 			continue
 		}
 		n := kc.Int64()
-		// facts implying len(x) > k
 		switch {
-		case bo.Op == token.GTR && pol && n >= k:
-			return true
-		case bo.Op == token.GEQ && pol && n >= k+1:
-			return true
-		case bo.Op == token.LEQ && !pol && n >= k:
-			return true
-		case bo.Op == token.LSS && !pol && n >= k+1:
-			return true
-		case bo.Op == token.EQL && pol && n >= k+1:
-			return true
-		case bo.Op == token.NEQ && !pol && n >= k+1:
-			return true
+		case (bo.Op == token.GTR && pol) || (bo.Op == token.LEQ && !pol):
+			minLen = max(minLen, n+1)
+		case (bo.Op == token.GEQ && pol) || (bo.Op == token.LSS && !pol):
+			minLen = max(minLen, n)
+		case (bo.Op == token.EQL && pol) || (bo.Op == token.NEQ && !pol):
+			minLen = max(minLen, n)
+		case (bo.Op == token.NEQ && pol) || (bo.Op == token.EQL && !pol):
+			excluded[n] = true // (the default arm of `switch len(x)` after `case 0, 1`)
+		}
+	}
+	for excluded[minLen] {
+		minLen++
+	}
+	return minLen > k
+}
+
+// sameLengthSource: the slice x is an element-for-element copy of.
+func sameLengthSource(x ssa.Value) ssa.Value {
+	c, ok := x.(*ssa.Call)
+	if !ok {
+		return nil
+	}
+	switch calleeName(c) {
+	case "slices.Clone":
+		if len(c.Call.Args) == 1 {
+			return c.Call.Args[0]
+		}
+	case "builtin.append":
+		// append([]T{}, y...): SSA passes y itself as the second operand of a spread append
+		if len(c.Call.Args) == 2 {
+			if isEmptySliceLiteral(c.Call.Args[0]) {
+				if _, isSlice := c.Call.Args[1].Type().Underlying().(*types.Slice); isSlice {
+					if _, fromVarargs := c.Call.Args[1].(*ssa.Slice); !fromVarargs {
+						return c.Call.Args[1]
+					}
+				}
+			}
+		}
+	}
+	return nil
+}
+
+func isEmptySliceLiteral(v ssa.Value) bool {
+	switch x := v.(type) {
+	case *ssa.Const:
+		return x.IsNil()
+	case *ssa.Slice:
+		if al, ok := x.X.(*ssa.Alloc); ok {
+			if pt, ok := al.Type().Underlying().(*types.Pointer); ok {
+				if arr, ok := pt.Elem().Underlying().(*types.Array); ok {
+					return arr.Len() == 0
+				}
+			}
+		}
+	case *ssa.MakeSlice:
+		if k, ok := x.Len.(*ssa.Const); ok && k.Value != nil {
+			return k.Int64() == 0
 		}
 	}
 	return false
